@@ -54,3 +54,23 @@ def index_of(seq, v):
 def neq(a, b):
     e = eqv(a, b)
     return (not e) if isinstance(e, bool) else ~e
+
+
+def ranking_container(ctx, names, tag="rk", which=None):
+    """The user-supplied ranking of an ordinal feature in one of the accepted containers (solver-chosen unless
+    `which` is given): list, numpy array, GroupedList, tuple-free dict form {leader: [leader]}."""
+    import numpy as np
+
+    from AutoCarver.discretizers import GroupedList
+
+    kinds = ("list", "array", "grouped", "dict")
+    k = kinds[ctx.choose(f"{tag}_container", len(kinds))] if which is None else which
+    names = list(names)
+    if k == "array":
+        homogeneous = len({type(n) for n in names}) == 1
+        return np.array(names, dtype=None if homogeneous else object)
+    if k == "grouped":
+        return GroupedList(names)
+    if k == "dict":
+        return GroupedList({n: [n] for n in names})
+    return names
